@@ -356,7 +356,7 @@ class Interp:
             obj.attrs[attr] = v
             if obj.constructed:
                 self.trace.append(Op("AttrSet", inst=obj, attr=attr, value=v, old=old, aug=aug,
-                                     where=self.where(st, ms), stack=tuple(self.call_stack)))
+                                     where=self.where(st, ms), stack=tuple(self.call_stack), node=st))
             return
         if isinstance(obj, Arr) and attr == "flags":
             raise Unsupported("flags assignment")
@@ -504,12 +504,19 @@ class Interp:
             if is_num(s):
                 return s != 0
         if isinstance(v, Cond):
-            d = v.decided()
-            if d is not None:
-                return d
-            d = self.decide_cond(v)
-            if d is not None:
-                return d
+            # the algebra treats symbols as positive, which is right for structural quantities (dx, x_range, grid sizes, eps) but
+            # not for free inputs such as a penalty factor, a step size or a viscosity, which may be zero or negative: a branch of
+            # the analysed code on such an input is not decided by that convention
+            from .extlib import ExtLib
+            structural = {"dx", "x_range", "eps", "pi", "nx", "ny", "nz", "h", "blend_width"}
+            inputs = [a for a in v.p.atoms() if a[0] == "s" and a[1] not in structural and a[1] not in ExtLib.INT_SYMBOLS and not a[1].startswith("@")]
+            if not inputs or v.p.is_const():
+                d = v.decided()
+                if d is not None:
+                    return d
+                d = self.decide_cond(v)
+                if d is not None:
+                    return d
             # an inequality between free scalar inputs (step sizes, coefficients, tolerances): both outcomes are feasible for the
             # quantified inputs and neither pins a value, so both are analysed as separate cases; on each path the symbols stay
             # free, i.e. identities checked there must hold as polynomial identities, which is what holding on an interval means
@@ -1094,7 +1101,27 @@ class Interp:
             d = to_pw(a) - to_pw(b)
             if not d.is_leaf():
                 raise Unsupported("comparison of piecewise values")
-            return Cond(d.leaf, {"Lt": "<", "LtE": "<=", "Gt": ">", "GtE": ">="}[name])
+            opn = {"Lt": "<", "LtE": "<=", "Gt": ">", "GtE": ">="}[name]
+            # a comparison whose every term carries a free input (penalty factor, step size, viscosity ...): the Cond normal form
+            # would divide by those symbols as if they were positive; the sign of such an input is not known, so the outcome is
+            # analysed both ways
+            from .extlib import ExtLib
+            from .poly import as_poly
+            structural = {"dx", "x_range", "eps", "pi", "nx", "ny", "nz", "h", "blend_width"}
+            if d.leaf.is_poly():
+                pp = as_poly(d.leaf)
+                ats = list(pp.atoms())
+
+                def free(a_):
+                    return a_[0] == "s" and a_[1] not in structural and a_[1] not in ExtLib.INT_SYMBOLS and not a_[1].startswith("@")
+                if ats and all(a_[0] == "s" for a_ in ats) and pp.t and all(any(free(a_) for a_, _ in m) for m in pp.t):
+                    from .regions import CURRENT_CASE, NeedDecision
+                    key = "[%r %s 0]" % (pp, opn)
+                    dec = CURRENT_CASE[0].decision(key)
+                    if dec is None:
+                        raise NeedDecision(key, "%s at %s" % (key, self.where(e, ms)))
+                    return dec
+            return Cond(d.leaf, opn)
         raise Unsupported("comparison %s of %r and %r at %s" % (name, a, b, self.where(e, ms)))
 
     def identical(self, a, b):
